@@ -56,6 +56,7 @@ def run(ctx):
 
     # ------------------------------------------------------------------ R1
     ctx.rule("C13.R1", "every address sink is dominated by the user-space guard on the same value", floor=4)
+    arms_entry = dict(arms)
     sinks = []   # (arm, bb, description, address_expr)
     for arm in ("Move", "Goto", "BreakAdd", "BreakRemove"):
         region = dbg.arm_region(disp, arms[arm])
@@ -84,16 +85,83 @@ def run(ctx):
                 if not already:
                     sinks.append((arm, b, "direct store to %s" % path[0], None))
     guard_calls = [(b, disp.expr(t["args"][1], 12, stop={"named"})) for b, t, c in disp.calls() if c == guard.name]
+
+    def carriers(gb):
+        """locals that hold exactly the value the guard at gb was applied to, or an Option/ControlFlow wrapping it: closure of the
+        guard's argument under copies, moves, Some/Ok/Continue wrapping, payload projection and Try::branch (nothing that computes)"""
+        a = disp.term(gb)["args"][1]
+        start = op_local(a)
+        if start is None:
+            return set()
+        car = {start}
+        defs = disp.defs()
+        # the argument is usually a temporary copy of the named value: the value it was copied from is the same value
+        cur = start
+        for _ in range(6):
+            sd = disp.single_def(cur)
+            if not (sd and sd[0] == "stmt" and sd[3]["r"]["k"] == "use" and sd[3]["r"]["a"].get("p") is not None and not sd[3]["r"]["a"]["p"].get("pr")):
+                break
+            cur = sd[3]["r"]["a"]["p"]["l"]
+            car.add(cur)
+        def rv_from(r):
+            k = r["k"]
+            if k == "use" or k == "ref":
+                pl = r["a"].get("p") if k == "use" else r.get("p")
+                if pl is None:
+                    return None
+                if all((e == "*") or (isinstance(e, dict) and ("dc" in e or "downcast" in e or e.get("n") in ("0",) or e.get("f") == 0)) for e in pl.get("pr", [])):
+                    return pl["l"]
+                return None
+            if k == "agg" and r.get("variant") in ("Some", "Ok", "Continue") and len(r["ops"]) == 1:
+                return op_local(r["ops"][0])
+            return None
+        changed = True
+        while changed:
+            changed = False
+            for l, ds in defs.items():
+                if l in car:
+                    continue
+                srcs, ok_all = [], True
+                for kind, db, i, node in ds:
+                    if kind == "stmt":
+                        r = node["r"]
+                        if r["k"] == "agg" and r.get("variant") in ("None", "Break", "Err"):
+                            continue
+                        src = rv_from(r)
+                    else:
+                        c = callee_of(node) or ""
+                        if c.endswith("from_residual"):
+                            continue
+                        src = op_local(node["args"][0]) if (c.endswith("Try>::branch") and node["args"]) else None
+                    if src is None:
+                        ok_all = False
+                        break
+                    srcs.append(src)
+                if ok_all and srcs and all(x in car for x in srcs):
+                    car.add(l)
+                    changed = True
+        return car
+
     for arm, b, what, aexpr in sinks:
         ctx.instance(1)
         subtrees = set(expr_walk(aexpr)) if aexpr else set()
         ok = False
         for gb, gexpr in guard_calls:
             tgt = guard_ok_target(disp, gb)
-            if tgt is None or not disp.dominates(tgt, b):
+            if tgt is None:
                 continue
+            if not disp.dominates(tgt, b):
+                # not a dominator in the plain CFG; still fine when every *feasible* path to the sink passes the guard's Some edge
+                # (a helper's `return None` joins the success path before the caller's `?` separates them again)
+                if b not in disp.reachable(tgt) or kit.feasible_path_avoiding(disp, arms_entry.get(arm, 0), b, {tgt}) is not None:
+                    continue
             if gexpr in subtrees and gexpr[0] == "local" and disp.single_def(gexpr[1]):
                 ok = True
+            elif aexpr is not None:
+                car = carriers(gb)
+                leaves = [x for x in expr_walk(aexpr) if x[0] == "local"]
+                if leaves and all(x[1] in car for x in leaves if disp.local_ty(x[1]) == "u16") and any(disp.local_ty(x[1]) == "u16" for x in leaves):
+                    ok = True
         ctx.oblig(ok, {"arm": arm, "sink": what, "address": expr_str(aexpr) if aexpr else "?", "at": sp_file_line(disp.term(b).get("sp"))},
                   "dominated by guard(Some) on the same definition")
         if not ok:
